@@ -68,6 +68,10 @@ pub fn install(hook: Option<Rc<dyn SimHook>>) {
     HOOK.with(|h| *h.borrow_mut() = hook);
     PREEMPT.with(|p| p.borrow_mut().clear());
     CURRENT.with(|c| c.set(None));
+}
+
+/// Restarts the serial numbers (call before creating a new virtual system).
+pub fn reset_serials() {
     OFD_SERIAL.with(|c| c.set(0));
 }
 
